@@ -28,7 +28,7 @@ var h3Ops = []string{"listen", "unlisten", "http", "tcp", "wait", "partition", "
 var h3Profiles = map[string][]int{
 	//      lsn unl http tcp wait part heal shut kill sync fwd
 	"C01": {14, 8, 34, 10, 14, 3, 3, 1, 1, 4, 0, 0},
-	"C06": {10, 8, 30, 8, 10, 10, 4, 0, 0, 2, 10, 0},
+	"C06": {10, 8, 26, 18, 10, 10, 4, 0, 0, 2, 10, 0},
 	"C05": {20, 18, 14, 4, 14, 2, 2, 0, 0, 2, 0, 0},
 	"C16": {22, 22, 14, 4, 10, 2, 2, 3, 1, 2, 0, 5},
 }
@@ -98,7 +98,7 @@ func execCluster(prop string) func(run *simkit.Run) {
 		interval := time.Duration(c.Int("interval_ms")) * time.Millisecond
 		for i := 0; i < c.Int("nodes"); i++ {
 			w.startNode(nodeOpts{interval: interval, grace: time.Duration(c.Int("grace_ms")) * time.Millisecond})
-			if run.Failed() {
+			if run.Stop() {
 				return
 			}
 		}
@@ -115,7 +115,7 @@ func execCluster(prop string) func(run *simkit.Run) {
 		}
 		time.Sleep(20 * interval)
 		for i, op := range c.Script {
-			if run.Failed() {
+			if run.Stop() {
 				break
 			}
 			run.Step = i
@@ -168,14 +168,14 @@ func execCluster(prop string) func(run *simkit.Run) {
 					}
 				}
 			}
-			if prop == "C16" && (op.K == "listen" || op.K == "unlisten" || op.K == "shutdown") && !run.Failed() {
+			if prop == "C16" && (op.K == "listen" || op.K == "unlisten" || op.K == "shutdown") && !run.Stop() {
 				w.checkRegisteredWhileConnected()
 			}
 		}
 		w.wg.Wait()
-		if !run.Failed() && prop == "C16" {
+		if !run.Stop() && prop == "C16" {
 			w.finalDrain()
-		} else if !run.Failed() {
+		} else if !run.Stop() {
 			w.finalSettled()
 		}
 		if w.requests > 0 && len(w.apps) > 0 {
